@@ -2,13 +2,16 @@ package checks
 
 import (
 	"fmt"
+	"math"
 	"os"
 	"path/filepath"
 	"sort"
 
 	"github.com/gopatchy/bkl"
 	"verif/core"
+	"verif/emit"
 	"verif/gen"
+	"verif/ref"
 	"verif/toolcopy/bkli"
 	"verif/toolcopy/bklr"
 )
@@ -312,6 +315,44 @@ func buildC16(tier string) *core.Plan {
 			}
 			c.Outcome("cli-migrate-ok")
 		}})
+	// the same document in two formats: self-intersection across formats, boundary numbers included
+	numDocs := []any{
+		map[string]any{"quota": 3000000000, "sizes": []any{1, 4294967296}, "f": 0.1, "max": math.MaxInt64, "neg": -2147483649},
+		map[string]any{"a": map[string]any{"n": 2147483648, "l": []any{map[string]any{"k": 9007199254740993}}}, "s": "x"},
+		map[string]any{"small": 1, "list": []any{1, 2, 2}, "fl": 1.5},
+	}
+	spaces = append(spaces, core.Space{Name: "cli-same-document-across-formats", N: int64(len(numDocs) * 9), Chunk: 1,
+		Desc: func(i int64) any { return map[string]any{"doc": numDocs[i/9], "formats": []string{fm[i%3], fm[(i/3)%3]}} },
+		Run: func(c *core.Ctx, i int64) {
+			d := numDocs[i/9]
+			fa, fb := fm[i%3], fm[(i/3)%3]
+			dir := scratchDir()
+			defer os.RemoveAll(dir)
+			ta, ok1 := emit.Stream(map[string]string{"json": "json", "yaml": "yaml-block", "toml": "toml-tables"}[fa], []any{d})
+			tb, ok2 := emit.Stream(map[string]string{"json": "json", "yaml": "yaml-flow", "toml": "toml-inline"}[fb], []any{d})
+			if !ok1 || !ok2 {
+				return
+			}
+			os.WriteFile(filepath.Join(dir, "a."+fa), []byte(ta), 0o644)
+			os.WriteFile(filepath.Join(dir, "b."+fb), []byte(tb), 0o644)
+			c.Eval()
+			c.Trans(1)
+			so, se, code, err := runTool(dir, "bkli", "-f", "json", "a."+fa, "b."+fb)
+			wit := fmt.Sprintf("cli self-intersection %s/%s: %s", fa, fb, core.Canon(d))
+			c.Validated()
+			c.Nontrivial()
+			if err != nil || code != 0 {
+				c.Fail("self-intersection", "bkli-fails", wit, se)
+				return
+			}
+			got, perr := c14ParseText("json", so)
+			if perr != nil || !core.EqualIntsExact(got, d) {
+				c.Outcome("CROSS-FORMAT-NOT-IDENTITY")
+				c.Fail("self-intersection", "not-identity-across-formats", wit, map[string]any{"stdout": so})
+				return
+			}
+			c.Outcome("cross-format-identity")
+		}})
 	return &core.Plan{
 		Spaces: spaces,
 		Rule:   "every ordered pair of map-rooted, null-free, $-free trees up to N nodes (both argument orders are in the product), every triple up to 3 nodes, (thorough) every quadruple up to 2 nodes, list pairs with repeated and subset entries; CLI migrate workflow (bkli, bkld, bkl with filename inheritance) in format mixes",
@@ -375,9 +416,21 @@ func c17Check(c *core.Ctx, layers []any) {
 	wit := core.Canon(layers)
 	p := newParser()
 	var prev []*bkl.Document
+	// the "layered input" is what the documented merge rules give (reference model), not
+	// whatever the implementation's merge produced: a wrong merge must not vouch for bklr
+	ms := &ref.Stream{}
+	var mprev []*ref.Doc
+	modelOK := true
 	for i, l := range layers {
 		d := newDoc(fmt.Sprintf("l%d", i), l)
 		d.AddParents(prev...)
+		rd := &ref.Doc{ID: fmt.Sprintf("l%d", i), Data: core.Clone(l), Parents: append([]*ref.Doc{}, mprev...)}
+		mprev = append(mprev, rd)
+		if modelOK {
+			if res, _ := ms.MergeDocument(rd); res.V != ref.Accept {
+				modelOK = false
+			}
+		}
 		if err := p.MergeDocument(d); err != nil {
 			c.Outcome("layers-rejected")
 			return
@@ -389,6 +442,13 @@ func c17Check(c *core.Ctx, layers []any) {
 		return
 	}
 	merged := docs[0]
+	if modelOK && len(ms.Docs) == 1 {
+		if !core.Equal(ms.Docs[0].Data, merged) {
+			c.Outcome("MERGED-DIFFERS-FROM-MODEL")
+			c.Fail("marker-positions", "layered-input-differs-from-documented-merge", wit, map[string]any{"implementation": merged, "model": ms.Docs[0].Data})
+			return
+		}
+	}
 	var out any
 	var rerr error
 	func() {
@@ -485,6 +545,28 @@ func buildC17(tier string) *core.Plan {
 		Run: func(c *core.Ctx, i int64) {
 			c17Check(c, []any{tiny[i/(n3*n3)], tiny[(i/n3)%n3], tiny[i%n3]})
 		}}
+	// lists mixing direct markers, nested markers and plain entries (beyond the node bound)
+	lentries := []any{"$required", 1, map[string]any{"a": "$required"}, map[string]any{"a": 1, "b": "$required"}, []any{"$required"}, map[string]any{"a": []any{1, "$required"}}}
+	var mixed []any
+	for _, x := range lentries {
+		for _, y := range lentries {
+			mixed = append(mixed, map[string]any{"l": []any{x, y}, "k": 1})
+			for _, z := range lentries[:3] {
+				mixed = append(mixed, map[string]any{"l": []any{x, y, z}})
+			}
+		}
+	}
+	uppers := []any{nil, map[string]any{"k": 2}, map[string]any{"l": []any{5}}, map[string]any{"l": []any{map[string]any{"$match": map[string]any{"a": "$required"}, "a": 7}}}}
+	nm, nu := int64(len(mixed)), int64(len(uppers))
+	mixedSpace := core.Space{Name: "mixed-marker-lists", N: nm * nu,
+		Desc: func(i int64) any { return []any{mixed[i/nu], uppers[i%nu]} },
+		Run: func(c *core.Ctx, i int64) {
+			if uppers[i%nu] == nil {
+				c17Check(c, []any{mixed[i/nu]})
+			} else {
+				c17Check(c, []any{mixed[i/nu], uppers[i%nu]})
+			}
+		}}
 	cliTrees := gen.Filter(gen.Trees(a, 3), gen.IsMap)
 	nc := int64(len(cliTrees))
 	cli := core.Space{Name: "cli", N: nc * nc,
@@ -540,7 +622,7 @@ func buildC17(tier string) *core.Plan {
 			c.Outcome("cli-ok")
 		}}
 	return &core.Plan{
-		Spaces: []core.Space{single, two, three, cli},
+		Spaces: []core.Space{single, two, three, mixedSpace, cli},
 		Rule:   "every chain of 1-3 map-rooted layers over keys {a,b}, scalars {1, x, $required}, lists <=3 (single layers up to N nodes, pairs up to N-1, triples up to 3): $required at every subset of positions, upper layers overriding every subset; CLI runs with filename inheritance in format mixes; non-trivial = the merged document holds a marker",
 		Assumptions: []string{"marker positions are compared as multisets of paths with list indices erased; in-process runs use cmd/bklr/required.go copied from /repo's working tree at build time"},
 		Bounds:      map[string]any{"nodes": n},
